@@ -840,6 +840,35 @@ def scenarios(draw, prof=None):
     if isinstance(mf, str):
         mf = npt + {"npt-1": -1, "npt": 0, "npt+1": 1}[mf]
     case["maxfun"] = None if mf is None else max(1, int(mf))
+    # exit-route recipes: budgets and thresholds that let a run end on one of the rarer documented routes (slow progress,
+    # noise level, false successful steps, rho reaching rhoend) instead of the budget, which otherwise ends > 70% of all cases
+    rbias = prof.get("route_bias", 0.12)
+    if rbias and draw(st.floats(0, 1)) < rbias:
+        recipe = draw(st.sampled_from(["slow", "slow", "noise-quit", "false-success", "rhoend"]))
+        if recipe == "noise-quit" and not prof.get("noise_flag", True):
+            recipe = "slow"
+        if recipe == "slow":
+            up["slow.max_slow_iters"] = draw(st.sampled_from([1, 2, 3]))
+            up["slow.thresh_for_slow"] = draw(st.sampled_from([0.1, 1.0, 10.0]))
+            up["slow.history_for_slow"] = draw(st.sampled_from([1, 2]))
+        elif recipe == "noise-quit":
+            up["noise.quit_on_noise_level"] = True
+            up.pop("noise.additive_noise_level", None)
+            up.pop("noise.multiplicative_noise_level", None)
+            if draw(st.booleans()):
+                up["noise.additive_noise_level"] = draw(st.sampled_from([1.0, 100.0])) * max(geo["mag"], 1.0)
+            else:
+                up["noise.multiplicative_noise_level"] = draw(st.sampled_from([0.5, 5.0]))
+        elif recipe == "false-success":
+            up["restarts.use_restarts"] = True
+            up.pop("restarts.use_soft_restarts", None)
+            up["restarts.soft.max_fake_successful_steps"] = draw(st.sampled_from([1, 2]))
+            if "restarts:soft" not in tags:
+                tags[:] = [t for t in tags if not t.startswith("restarts:")] + ["restarts:soft"]
+        else:
+            case["rhoend"] = rb_eff * 10.0 ** (-draw(st.sampled_from([1, 1, 2])))
+        case["maxfun"] = draw(st.sampled_from([60, 150]))
+        tags.append("recipe:" + recipe)
     if prof["avg"] and draw(st.floats(0, 1)) < prof.get("avg_prob", 0.25):
         kind_ns = draw(st.sampled_from(["const", "table", "rule"]))
         if kind_ns == "const":
